@@ -150,6 +150,7 @@ func Vars(d gen.DataSpec, p *Probes) jet.VarMap {
 	vm.Set("n", 3)
 	vm.SetFunc("fail", p.fn(true))
 	vm.SetFunc("mark", p.fn(false))
+	vm.Set("vfn", func(xs ...int) int { return len(xs) })
 	return vm
 }
 
